@@ -141,7 +141,9 @@ def planeParamsFromPoints(pt1, pt2, pt3):
     d13 = vdiff(pt1, pt3)
     normal = vect(d12, d13)
     normal_len2 = mag2(normal)
-    if normal_len2 <= 1e-10:
+    # the test must not depend on the length unit: three points a few
+    # millimetres apart are not collinear
+    if normal_len2 <= 1e-10 * mag2(d12) * mag2(d13):
         raise ValueError('Cannot convert plane from three points because the '
                          'points are collinear or almost so: '
                          f'{pt1}, {pt2}, {pt3}')
